@@ -167,6 +167,10 @@ NOT_APPLICABLE["C05"] = ("response-head glue builds an http::Response (http::res
                          "prefix clauses that do not build a Response are decided under C11/C12 instead (DESIGN.md §3 C05)")
 NOT_APPLICABLE["C20"] = ("same code path as C05 (try_parse_response / try_parse_request build http values from httparse output): out of reach for "
                          "CBMC within budget; not claimed (DESIGN.md §3 C20)")
+NOT_APPLICABLE["C15"] = ("the method-rewriting table is an if-chain inside Flow::<Redirect>::as_new_flow, which also resolves the URL (url crate), "
+                         "rebuilds a flow (Flow::new) and parses three header names; one concrete (GET, 302) cell with the URL resolution stubbed did "
+                         "not finish in 30 min / 18 GB. Only its entry condition (redirect state exactly for 3xx other than 304, reported status) is "
+                         "decided, under C09/C10 (c09_pred_readiness_and_branches, c10_verdict_*); the table itself is not claimed")
 for _p in ["C01", "C02", "C03", "C05", "C06", "C07", "C08", "C09", "C10", "C11", "C12", "C13", "C15", "C16", "C17",
            "C18", "C19", "C20"]:
     if _p not in CLAIMS:
